@@ -29,6 +29,10 @@ func litSet(w *ecs.World, e ecs.Entity, id ecs.ID, pl *plan) {
 		w.Set(e, id, &Child{P: newPayload(pl.pids[0])})
 	case kArr:
 		w.Set(e, id, mkArr(pl))
+	case kStrOnly:
+		w.Set(e, id, &StrOnly{S: mkString(pl), N: pl.x})
+	case kBig:
+		w.Set(e, id, mkBig(pl))
 	}
 }
 
@@ -52,6 +56,10 @@ func litAssign(w *ecs.World, e ecs.Entity, id ecs.ID, pl *plan) {
 		w.Assign(e, ecs.Component{ID: id, Comp: &Child{P: newPayload(pl.pids[0])}})
 	case kArr:
 		w.Assign(e, ecs.Component{ID: id, Comp: mkArr(pl)})
+	case kStrOnly:
+		w.Assign(e, ecs.Component{ID: id, Comp: &StrOnly{S: mkString(pl), N: pl.x}})
+	case kBig:
+		w.Assign(e, ecs.Component{ID: id, Comp: mkBig(pl)})
 	}
 }
 
@@ -75,6 +83,10 @@ func litNewWith(w *ecs.World, id ecs.ID, pl *plan) ecs.Entity {
 		return w.NewEntityWith(ecs.Component{ID: id, Comp: &Child{P: newPayload(pl.pids[0])}})
 	case kArr:
 		return w.NewEntityWith(ecs.Component{ID: id, Comp: mkArr(pl)})
+	case kStrOnly:
+		return w.NewEntityWith(ecs.Component{ID: id, Comp: &StrOnly{S: mkString(pl), N: pl.x}})
+	case kBig:
+		return w.NewEntityWith(ecs.Component{ID: id, Comp: mkBig(pl)})
 	}
 	panic("bad kind")
 }
@@ -103,6 +115,10 @@ func litBuilderNew(w *ecs.World, id ecs.ID, pl *plan, withTarget bool, target ec
 		return ecs.NewBuilderWith(w, ecs.Component{ID: id, Comp: &Child{P: newPayload(pl.pids[0])}}).New()
 	case kArr:
 		return ecs.NewBuilderWith(w, ecs.Component{ID: id, Comp: mkArr(pl)}).New()
+	case kStrOnly:
+		return ecs.NewBuilderWith(w, ecs.Component{ID: id, Comp: &StrOnly{S: mkString(pl), N: pl.x}}).New()
+	case kBig:
+		return ecs.NewBuilderWith(w, ecs.Component{ID: id, Comp: mkBig(pl)}).New()
 	}
 	panic("bad kind")
 }
